@@ -19,6 +19,8 @@ spec = {
   "count_prefix": false -> the prefix nodes are executed but not counted/compared (they belong to another task),
   "leaf_order": [letters] | None -> at the last level only these letters and the letters occurring in the history
              are compiled (victims),
+  "count_prefix_all": true -> every prefix node is counted/compared (linear histories, e.g. alternations),
+  "gc_between": true -> gc.collect() after every prefix compilation,
   "count_min_len": n -> histories shorter than n are executed but not counted/compared (covered by another stratum),
   "prealloc": number of objects allocated (and kept alive) before importing cohdl / the design,
   "record":  bool  -> also return the complete outcome of every prefix compilation (golden/variant runs)
@@ -314,12 +316,16 @@ def main():
     for d, letter in enumerate(prefix):
         # a prefix node is shared by several tasks; it is counted by the task whose remaining
         # prefix letters are all the first letter of the alphabet
-        owned = all(x == order[0] for x in prefix[d + 1:])
+        owned = all(x == order[0] for x in prefix[d + 1:]) or bool(spec.get("count_prefix_all"))
         out = visit(spec, hist, letter, stats,
                     counted=(owned and spec.get("count_prefix", True)) or spec.get("golden") is None)
         if spec.get("record"):
             recorded.append({"letter": letter, **out})
         hist.append(letter)
+        if spec.get("gc_between"):
+            import gc
+
+            gc.collect()  # the objects of the previous build are garbage (a user session may do this, too)
     stats["prefix_recompilations"] = len(prefix)
     explore(spec, hist, int(spec.get("depth", len(prefix))) - len(prefix), stats)
     stats["recorded"] = recorded
